@@ -1429,7 +1429,8 @@ func ruleBorderCover(c *Ctx, rule string, fns []*ssa.Function, needRow, needCol 
 		for _, b := range fn.Blocks {
 			for _, ins := range b.Instrs {
 				if mk, ok := ins.(*ssa.MakeSlice); ok {
-					if mul, ok := mk.Len.(*ssa.BinOp); ok && mul.Op == token.MUL && table == nil {
+					// r*c with two different dimensions (the flattened scoring matrix is let*let)
+					if mul, ok := mk.Len.(*ssa.BinOp); ok && mul.Op == token.MUL && table == nil && mul.X != mul.Y {
 						if _, isK := constIntVal(mul.X); !isK {
 							if _, isK := constIntVal(mul.Y); !isK {
 								table, rVal, cVal = mk, mul.X, mul.Y
@@ -2257,6 +2258,57 @@ func ruleTableShift(c *Ctx, rule string, tables ...string) {
 // word, so the word's letters are s.Seq[B-k+1 .. B]: position + k - 1 == B.
 // Both counters advance by one per iteration, so the relation is decided from
 // their initial values as symbolic linear forms.
+// seqRead is one read of s.Seq[index] as seen from fn: made in fn itself, or in a closure of fn that is
+// handed the position as an argument (shift(basePosition)).
+type seqRead struct {
+	blk   *ssa.BasicBlock
+	index ssa.Value
+}
+
+func seqReadsOf(fn *ssa.Function) []seqRead {
+	var out []seqRead
+	isSeq := func(ia *ssa.IndexAddr) bool {
+		ld, ok := ia.X.(*ssa.UnOp)
+		if !ok || ld.Op != token.MUL {
+			return false
+		}
+		fa, ok := ld.X.(*ssa.FieldAddr)
+		return ok && structFieldName(fa.X.Type(), fa.Field) == "Seq"
+	}
+	for _, b := range fn.Blocks {
+		for _, ins := range b.Instrs {
+			if ia, ok := ins.(*ssa.IndexAddr); ok && isSeq(ia) {
+				out = append(out, seqRead{b, ia.Index})
+			}
+		}
+	}
+	for _, an := range fn.AnonFuncs {
+		for _, ab := range an.Blocks {
+			for _, ai := range ab.Instrs {
+				ia, ok := ai.(*ssa.IndexAddr)
+				if !ok || !isSeq(ia) {
+					continue
+				}
+				prm, ok := ia.Index.(*ssa.Parameter)
+				if !ok {
+					continue
+				}
+				pi := paramIndex(an, prm)
+				for _, b := range fn.Blocks {
+					for _, ins := range b.Instrs {
+						call, ok := ins.(*ssa.Call)
+						if !ok || call.Call.StaticCallee() != an || pi < 0 || pi >= len(call.Call.Args) {
+							continue
+						}
+						out = append(out, seqRead{b, call.Call.Args[pi]})
+					}
+				}
+			}
+		}
+	}
+	return out
+}
+
 func ruleWindowPos(c *Ctx, rule string) {
 	fn := c.fn("index/kmerindex", "(*Index).ForEachKmerOf")
 	c.Funcs[funcName(fn)] = true
@@ -2298,23 +2350,12 @@ func ruleWindowPos(c *Ctx, rule string) {
 	// the letter read in this iteration: s.Seq[B + r]
 	var B *ssa.Phi
 	var r int64
-	for b := range loop.body {
-		for _, ins := range b.Instrs {
-			ia, ok := ins.(*ssa.IndexAddr)
-			if !ok {
-				continue
-			}
-			ld, ok := ia.X.(*ssa.UnOp)
-			if !ok || ld.Op != token.MUL {
-				continue
-			}
-			fa, ok := ld.X.(*ssa.FieldAddr)
-			if !ok || structFieldName(fa.X.Type(), fa.Field) != "Seq" {
-				continue
-			}
-			if q, off, ok := linearIn(ia.Index); ok && q.Block() == loop.head {
-				B, r = q, off
-			}
+	for _, rd := range seqReadsOf(fn) {
+		if !loop.body[rd.blk] {
+			continue
+		}
+		if q, off, ok := linearIn(rd.index); ok && q.Block() == loop.head {
+			B, r = q, off
 		}
 	}
 	if B == nil {
